@@ -39,6 +39,7 @@ Inductive event :=
 | EPeerReset              (* the connection is reset now (noticed even if nothing is being read) *)
 | ETick                   (* virtual time advances to the next armed timer, which fires *)
 | EMsgDone                (* the Future of a pending asynchronous on_message resolves *)
+| EOpenDone               (* a coroutine open() that was still pending returns: _receive_frame_loop starts *)
 | EWrite.                 (* the application calls write_message *)
 
 (* frames we put on the wire *)
@@ -53,12 +54,16 @@ Inductive item :=
 | IWriteOk | IWriteErr                       (* write_message returned / raised WebSocketClosedError *)
 | ILogExc.
 
-Inductive lstate := LRead | LBlocked | LDone.
-Inductive ltag := TRead | TBlocked | TEnded.
+Inductive lstate := LOpening (* coroutine open() pending, loop not started *) | LRead | LBlocked | LDone.
+Inductive ltag := TOpening | TRead | TBlocked | TEnded.
 Inductive pstate := PNone | PFirst | PPong | PNext.
 Inductive qitem := QFrame (f : frame) | QEof.
 
-Record cfg := mkcfg { c_role : role; c_ping : option (N * option N) (* interval, timeout; seconds *) }.
+Record cfg := mkcfg {
+  c_role : role;
+  c_ping : option (N * option N);   (* interval, timeout; seconds *)
+  c_aopen : bool                    (* server: open() is a coroutine that stays pending until EOpenDone *)
+}.
 
 Definition ping_interval (c : cfg) : N :=
   match c_ping c with Some (i, _) => i | None => 0 end.
@@ -102,7 +107,9 @@ Definition set_hclose c r s := mkstate (s_ct s) (s_st s) (s_sc s) (s_wait s) (s_
 Definition init (c : cfg) : state :=
   mkstate false false false false None None
           (if ping_interval c =? 0 then PNone else PFirst)   (* start_pinging *)
-          false LRead true false None None.
+          false
+          (match c_role c with Server => if c_aopen c then LOpening else LRead | Client => LRead end)
+          true false None None.
 
 (* "ping timed out", "message too big" *)
 Definition timed_out_reason : list N := [112;105;110;103;32;116;105;109;101;100;32;111;117;116].
@@ -230,6 +237,7 @@ Definition act (c : cfg) (e : event) (m : mstate) : mstate * list item :=
   | EPeerReset => ((set_sc true s, q), [])
   | ETick => let '(s1, o) := tick c s in ((s1, q), o)
   | EMsgDone => ((match s_loop s with LBlocked => set_loop LRead s | _ => s end, q), [])
+  | EOpenDone => ((match s_loop s with LOpening => set_loop LRead s | _ => s end, q), [])
   | EWrite => let '(s1, o) := write (c_role c) s in ((s1, q), o)
   end.
 
@@ -240,7 +248,7 @@ Definition step (c : cfg) (e : event) (m : mstate) : mstate * list item :=
 
 Record snap := mksnap { n_sc : bool; n_ct : bool; n_st : bool; n_wait : bool; n_hconn : bool; n_loop : ltag }.
 Definition tag_of (l : lstate) : ltag :=
-  match l with LRead => TRead | LBlocked => TBlocked | _ => TEnded end.
+  match l with LOpening => TOpening | LRead => TRead | LBlocked => TBlocked | LDone => TEnded end.
 Definition snap_of (s : state) : snap :=
   mksnap (s_sc s) (s_ct s) (s_st s) (s_wait s) (s_hconn s) (tag_of (s_loop s)).
 
